@@ -20,7 +20,7 @@ LEVEL_ASSUMPTIONS = [
     "feasibility oracle vlib/oracles/packing.py (self-tested on the "
     "Liu-Teng example)", "icontract postcondition on "
     "ImprovedBottomLeftEncoding{1,2}.decode evaluated on every call"]
-REQUIRED = {"suite_runs": 1, "contract_decode_calls": 1000, "contract_decode_evaluated": 500, "forced_rotations": 20,
+REQUIRED = {"concurrent_decodes": 20000, "suite_runs": 1, "contract_decode_calls": 1000, "contract_decode_evaluated": 500, "forced_rotations": 20,
             "second_bin": 100, "dtype[int8]": 1, "dtype[int16]": 1,
             "dtype[int32]": 1, "dtype[int64]": 1}
 
@@ -36,6 +36,12 @@ SUITE_DOMAINS = ['packing']
 def plan(tier: str, seed: int):
     rounds = 1 if tier == "quick" else 6
     return _plan(tier, seed) + [
+        # the same workload once in an interpreter started with -O
+        {"name": "opt", "engine": "opt", "timeout": 3000,
+         "args": {"n": 150 if tier == "quick" else 1500}},
+        {"name": "threads", "engine": "jit", "timeout": 3000,
+         "args": {"mode": "threads", "n": 6 if tier == "quick" else 60,
+                  "threads": 6, "loops": 150}}] + [
         {"name": f"suite{i}", "engine": "jit", "timeout": 3000,
          "args": {"mode": "suite", "tests": SUITE_TESTS,
                   "domains": SUITE_DOMAINS, "rounds": rounds}}
@@ -102,6 +108,88 @@ def decode_case(ctx, mon, desc, inst, encs, perm, enc_id, y):
     return y
 
 
+def threads_shard(ctx, args):
+    """Several threads, each with its OWN encoder objects and destination,
+    decode permutations of one SHARED instance at the same time (the kernels
+    are compiled with nogil=True, instances are immutable data, e.g. the one
+    cached object `Instance.from_resource` returns). Every result must equal
+    what the same permutation gives in a single thread (those references are
+    judged by the feasibility oracle first)."""
+    import sys
+    import threading
+
+    from moptipyapps.binpacking2d.instance import Instance
+    from moptipyapps.binpacking2d.packing import Packing
+    rng = ctx.rng
+    mon = _monitor(ctx)
+    old_int = sys.getswitchinterval()
+    sys.setswitchinterval(1e-5)
+    try:
+        for rnd in range(args["n"]):
+            if rnd % 3 == 0:
+                nm = str(rng.choice(["a01", "a04", "beng01", "cl01_020_01",
+                                     "cl02_040_03"]))
+                inst = Instance.from_resource(nm)
+                desc = wb.desc_of(inst, "shipped")
+            else:
+                desc = wb.gen_instance(rng, str(rng.choice(
+                    ["general", "twins", "forcedrot", "unit"])))
+                try:
+                    inst = wb.make_real(desc)
+                except ValueError:
+                    continue
+            perms = [wb.gen_perm(rng, desc, "random") for _ in range(12)]
+            refs = {}
+            for e in (1, 2):
+                enc = _encoders(inst)[e]
+                for k, p in enumerate(perms):
+                    y = Packing(inst)
+                    mon.current = {"kind": "decode", "desc": desc,
+                                   "perm": p, "enc": e}
+                    enc.decode(wb.x_array(p, inst), y)   # contract judges it
+                    mon.current = None
+                    refs[(e, k)] = (np.array(y), int(y.n_bins))
+            xs = [wb.x_array(p, inst) for p in perms]
+            bad: list = []
+            nthr = int(args.get("threads", 6))
+            loops = int(args.get("loops", 150))
+
+            def work(tid):
+                encs = _encoders(inst)
+                raw = {e: getattr(type(encs[e]), "_verif_orig_decode",
+                                  type(encs[e]).decode) for e in encs}
+                y = Packing(inst)
+                order = np.random.default_rng(tid).permutation(len(perms))
+                for it in range(loops):
+                    for k in order:
+                        e = 1 + (it + tid + int(k)) % 2
+                        raw[e](encs[e], xs[int(k)], y)
+                        ra, rk = refs[(e, int(k))]
+                        if y.n_bins != rk or not np.array_equal(y, ra):
+                            bad.append((tid, e, int(k)))
+                            return
+            ths = [threading.Thread(target=work, args=(t,))
+                   for t in range(nthr)]
+            for t in ths:
+                t.start()
+            for t in ths:
+                t.join()
+            ctx.case(nthr * loops * len(perms))
+            ctx.count("concurrent_decodes", nthr * loops * len(perms))
+            ctx.count("concurrent_rounds")
+            if bad:
+                tid, e, k = bad[0]
+                ctx.violation(
+                    "decode-differs-under-concurrent-decoding",
+                    f"thread {tid}: encoding {e} on {perms[k][:12]}.. gives "
+                    f"another packing while {nthr - 1} other threads decode "
+                    f"the same instance with their own encoders",
+                    ctx.shard_replay_case(what="threads", desc=desc))
+                return
+    finally:
+        sys.setswitchinterval(old_int)
+
+
 def one_instance(ctx, desc, exhaustive_ok=True):
     mon = _monitor(ctx)
     rng = ctx.rng
@@ -140,6 +228,12 @@ def one_instance(ctx, desc, exhaustive_ok=True):
 
 
 def run_shard(ctx, args):
+    if args.get("mode") == "threads":
+        return threads_shard(ctx, args)
+    return _run_shard(ctx, args)
+
+
+def _run_shard(ctx, args):
     rng = ctx.rng
     classes = ["tiny", "itembin", "forcedrot", "dtype", "general", "unit",
                "dtype", "forcedrot", "general", "shipped"]
